@@ -94,6 +94,9 @@ func loadFindings(path string) ([]finding, error) {
 	return out, sc.Err()
 }
 
+// workerSem bounds the number of worker processes over all harnesses of a run.
+var workerSem = make(chan struct{}, 16)
+
 type workerOut struct {
 	Stats enum.Stats       `json:"stats"`
 	Viols []enum.Violation `json:"violations"`
@@ -256,7 +259,7 @@ func exploreIsolated(r *Run, s HarnessSpec, id string) (enum.Stats, []enum.Viola
 		err error
 	}
 	results := make([]res, n)
-	sem := make(chan struct{}, 16)
+	sem := workerSem
 	var wg sync.WaitGroup
 	var mu sync.Mutex
 	var crashes []enum.Violation
@@ -494,21 +497,44 @@ func runAll(r *Run, specs []HarnessSpec, verifDir, only string) int {
 	var viols []enum.Violation
 	exhaustive := true
 	var toolErr error
+	type hres struct {
+		st  enum.Stats
+		vs  []enum.Violation
+		err error
+	}
+	var sel []HarnessSpec
 	for _, s := range specs {
 		if only != "" && !strings.Contains(s.Name, only) {
 			continue
 		}
+		sel = append(sel, s)
+	}
+	results := make([]hres, len(sel))
+	var hwg sync.WaitGroup
+	for i, s := range sel {
 		if s.BudgetS > 0 {
 			s.Deadline = time.Now().Add(time.Duration(s.BudgetS * float64(time.Second)))
 		}
-		var st enum.Stats
-		var vs []enum.Violation
-		var err error
-		if s.Isolated {
-			st, vs, err = exploreIsolated(r, s, id)
-		} else {
-			st, vs, err = enum.Explore(s.Harness)
+		run := func(i int, s HarnessSpec) {
+			var hr hres
+			if s.Isolated && os.Getenv("VERIF_NOISOLATE") == "" {
+				hr.st, hr.vs, hr.err = exploreIsolated(r, s, id)
+			} else {
+				hr.st, hr.vs, hr.err = enum.Explore(s.Harness)
+			}
+			results[i] = hr
 		}
+		if s.Isolated && os.Getenv("VERIF_NOISOLATE") == "" {
+			// isolated harnesses run concurrently (the worker-process semaphore bounds the load)
+			hwg.Add(1)
+			go func(i int, s HarnessSpec) { defer hwg.Done(); run(i, s) }(i, s)
+		} else {
+			run(i, s)
+		}
+	}
+	hwg.Wait()
+	for i, s := range sel {
+		st, vs, err := results[i].st, results[i].vs, results[i].err
 		fmt.Fprintf(os.Stderr, "[%s] %-28s bound=%d evals=%d states=%d nontrivial=%d outcomes=%d exhaustive=%v viol=%d %.1fs\n",
 			id, s.Name, st.Bound, st.Evaluations, st.States, st.DistinctNontrivial, st.DistinctOutcomes, st.Exhaustive, len(vs), st.WallS)
 		all = append(all, st)
@@ -516,9 +542,8 @@ func runAll(r *Run, specs []HarnessSpec, verifDir, only string) int {
 		if !st.Exhaustive {
 			exhaustive = false
 		}
-		if err != nil {
+		if err != nil && toolErr == nil {
 			toolErr = err
-			break
 		}
 	}
 	if toolErr != nil {
